@@ -193,12 +193,27 @@ def make_ids(rng, n, mode):
     raise ValueError(mode)
 
 
+def warp_point(warp, p):
+    """maps of the (doubled) lattice that keep every lattice face planar but
+    make the cells non-parallelepipeds (frustum: x, y scaled linearly in z);
+    'twist' makes the z-faces of hexes non-planar (cells stay convex-ish)"""
+    x, y, z = p
+    if warp == 'frustum':
+        return (x * (12 + z), y * (12 + z), 7 * z)
+    if warp == 'frustum2':
+        return (x * (20 - z), (y + 1) * (16 + z), 9 * z)
+    if warp == 'twist':
+        return (12 * x, 12 * y, 12 * z + ((x * y) // 4) % 3)
+    return p
+
+
 def gen_mesh(rng, kind=None, dims=None, id_mode=None, affine=None, tet2=False, extra_nodes=None,
-             invert_one=False, max_elems=60):
+             invert_one=False, max_elems=60, warp=None):
     """-> dict(nodes=[(id,(x,y,z))...] storage order, blocks={type: [(eid,[node ids])...]}, meta)"""
     kinds = {
         'hex': ['hex'], 'tet': ['tet'], 'pyr': ['pyr'], 'prism': ['prismx', 'prismy', 'prismz'],
         'hexpyr': ['hex', 'pyr'], 'mix': CELL_TYPES, 'tetprism': ['tet', 'prismz'],
+        'hextet': ['hex', 'tet'],
     }
     if kind is None:
         kind = rng.choice(list(kinds))
@@ -221,7 +236,7 @@ def gen_mesh(rng, kind=None, dims=None, id_mode=None, affine=None, tet2=False, e
     if tet2:
         # mid-edge nodes of tets: doubled coordinates once more
         pass
-    coords = {i: mat_apply(M, t, p) for p, i in pts.items()}
+    coords = {i: mat_apply(M, t, warp_point(warp, p)) for p, i in pts.items()}
     n = len(pts)
     conns = []
     for typ, ps in elems:
@@ -281,6 +296,6 @@ def gen_mesh(rng, kind=None, dims=None, id_mode=None, affine=None, tet2=False, e
         rng.shuffle(blocks[typ])
     blocks = {typ: blocks[typ] for typ in TYPE_ORDER if typ in blocks}
     meta = {'kind': kind, 'dims': list(dims), 'affine': name, 'id_mode': id_mode, 'tet2': tet2,
-            'extra_nodes': extra_nodes, 'invert_one': invert_one, 'inverted_eid': inverted_eid,
+            'extra_nodes': extra_nodes, 'invert_one': invert_one, 'warp': warp, 'inverted_eid': inverted_eid,
             'n_elem': len(conns), 'n_node': n}
     return {'nodes': nodes, 'blocks': blocks, 'meta': meta}
